@@ -530,6 +530,10 @@ func (c *Chunker) buildSections(doc *model.Document) []*Section {
 
 	for pageNum, page := range doc.Pages {
 		pageIndex := pageNum + 1
+		if page.Number > 0 {
+			// report the page's own number, which differs from its position when pages were selected
+			pageIndex = page.Number
+		}
 
 		if page.Layout == nil {
 			continue
